@@ -40,14 +40,40 @@ def main():
             before = snapshot(tmp / "d")
             st2 = DatasetStructure(saved_data_description=[Attribute(name="b", dtype="float32", shape=(2,))], shard_file_type=rng.choice(["fb", "npz"]),
                                    compression="", examples_per_shard=7)
+            # the same directory, spelled differently: Path / str, relative to the working directory, through '..', with a trailing
+            # slash, through the home directory (~)
+            spell = ["path", "str", "relative", "dotdot", "slash", "home"][i % 6]
+            cwd, home = os.getcwd(), os.environ.get("HOME")
             try:
-                Dataset.create(path=(tmp / "d") if rng.random() < 0.5 else str(tmp / "d"), metadata=Metadata(description="second"), dataset_structure=st2)
-                refused = False
-            except Exception as ex:  # noqa: BLE001
-                refused = type(ex).__name__
+                if spell == "path":
+                    arg = tmp / "d"
+                elif spell == "str":
+                    arg = str(tmp / "d")
+                elif spell == "relative":
+                    os.chdir(tmp)
+                    arg = "d"
+                elif spell == "dotdot":
+                    (tmp / "x").mkdir()
+                    arg = tmp / "x" / ".." / "d"
+                elif spell == "slash":
+                    arg = str(tmp / "d") + "/"
+                else:
+                    os.environ["HOME"] = str(tmp)
+                    arg = "~/d"
+                try:
+                    Dataset.create(path=arg, metadata=Metadata(description="second"), dataset_structure=st2)
+                    refused = False
+                except Exception as ex:  # noqa: BLE001
+                    refused = type(ex).__name__
+            finally:
+                os.chdir(cwd)
+                if home is None:
+                    os.environ.pop("HOME", None)
+                else:
+                    os.environ["HOME"] = home
             after = snapshot(tmp / "d")
             changed = sorted(k for k in set(before) | set(after) if before.get(k) != after.get(k))
-            cases.append({"refused": refused, "changed": changed, "examples": n})
+            cases.append({"refused": refused, "changed": changed, "examples": n, "spelling": spell})
         finally:
             shutil.rmtree(tmp, ignore_errors=True)
     print("@@RESULT@@" + json.dumps({"cases": cases}))
